@@ -96,7 +96,7 @@ package car
 //@   ensures eof_clean [C02]: err == io.EOF ==> pos(br.r) == old(pos(br.r)) || (br.opts.ZeroLengthSectionAsEOF && e0 == io.EOF && pos(br.r) == old(pos(br.r)) + 1)
 
 //@ func LoadIndex
-//@   requires origin [C03]: pos(r) == 0 && sbase(r) == 0
+//@   requires origin [C03]: pos(r) == sbase(r)
 //@   assume stream_bound: true
 //@   let pragma, perr := call[carv1.ReadHeader#0]
 //@   loop[0] invariant offset [C03]: sectionOffset == pos(reader) - sbase(reader) - dataOffset
